@@ -3,10 +3,37 @@
 (* Known-finding carve-outs.  FindingOf maps a violated clause to the id of *)
 (* the recorded finding whose *specific failing condition* it matches, or   *)
 (* "" when it matches none (then it is reported as a VIOLATION).  Which     *)
-(* ids are actually suppressed is decided by /verif/known_findings.json;    *)
-(* the conditions here are as narrow as the recorded defect.                *)
+(* ids are actually suppressed is decided by /verif/known_findings.json     *)
+(* (status "known"); the conditions here are as narrow as the recorded      *)
+(* defect, so a different violation of the same property is still reported. *)
 (***************************************************************************)
 EXTENDS Props
 
-FindingOf(tag, S, e, T) == ""
+LastCall(e) == e.calls[Len(e.calls)]
+AttemptedFrom(e, from) ==
+  LET idx == {i \in 1..Len(e.xfers) : e.xfers[i].from = from}
+  IN SumOver([i \in idx |-> e.xfers[i].amt], idx)
+
+(* F6: `liquidate` chooses the partial path by comparing the *magnitude* of a signed margin
+   ratio with the liquidation fee; a position with a negative ratio whose magnitude exceeds the
+   fee is sent down the partial path, where margin - |realized pnl| - penalty underflows. *)
+IsF6(S, e) ==
+  /\ EngOp(e, "liquidate") /\ ~e.res.ok /\ S.eng.cfg.plr # 0
+  /\ LET lr == LiqRatio(S, e.tx.a.vamm, e.tx.a.trader)
+     IN lr.ok /\ lr.val < 0 /\ -lr.val > S.eng.cfg.liqfee
+  /\ e.calls # <<>> /\ LastCall(e).msg = "reply_7" /\ ~LastCall(e).ok
+
+(* F5: the liquidation replies size withdraw() from the vault balance read when the reply runs,
+   before the transfers queued by the same reply (remaining margin / the fund's half of the
+   penalty -> insurance fund) execute; the later transfer to the liquidator then exceeds what
+   is left although the insurance fund could have covered it. *)
+IsF5(S, e) ==
+  /\ EngOp(e, "liquidate") /\ ~e.res.ok /\ e.res.err = "transfer_failure"
+  /\ e.calls # <<>> /\ LastCall(e).msg = "reply_9"
+  /\ AttemptedFrom(e, "engine") > S.bal["engine"] + Sent(e, "ifund", "engine")
+
+FindingOf(tag, S, e, T) ==
+  IF tag = "C07.live" /\ IsF6(S, e) THEN "F6"
+  ELSE IF tag = "C07.live" /\ IsF5(S, e) THEN "F5"
+  ELSE ""
 =============================================================================
